@@ -1,6 +1,6 @@
 (* C11 — property theorems (statements only; proofs live in Proofs.v; vocabulary in Spec.v / Model.v). *)
 From Coq Require Import List NArith Bool.
-Require Import QV.C11.Model QV.C11.Spec QV.C11.Proofs QV.C11.Proofs_load QV.C11.Proofs_kill QV.C11.Guard QV.C11.Proofs_guard QV.C11.Proofs_exact QV.C11.Proofs_tight QV.C11.Repair QV.C11.Proofs_repair.
+Require Import QV.C11.Model QV.C11.Spec QV.C11.Proofs QV.C11.Proofs_load QV.C11.Proofs_kill QV.C11.Guard QV.C11.Proofs_guard QV.C11.Proofs_exact QV.C11.Proofs_tight QV.C11.Repair QV.C11.Proofs_repair QV.C11.Proofs_audit QV.C11.Proofs_bad.
 Import ListNotations.
 Open Scope N_scope.
 
@@ -23,10 +23,14 @@ Print Assumptions C11_crash_safe_closed.
 
 (* the model variant that the correspondence check ties to /repo replaces atomically in all three backends *)
 Theorem C11_current_code_safe : forall b, safe current b = true.
-Proof. intros []; reflexivity. Qed.
+Proof. exact current_code_safe. Qed.
 Print Assumptions C11_current_code_safe.
 
-(* un-serializable nested object / identifier clash / missing key: no primitive is performed *)
+(* un-serializable nested object / identifier clash / missing key: no primitive is performed.
+   DEFINITIONAL (audit, round 5): `plan` has the shape "PErr | PNoop | PSteps", so this holds by unfolding steps_of; the
+   content - the code decides about these errors BEFORE the first backend call - is a property of the SHAPE of the
+   model, which is tested against /repo (check_corr: OutErr <-> PErr; check_spec: a rejected operation changes nothing),
+   not proved.  Kept under its name for reference; do not count it as a proof of that clause. *)
 Theorem C11_error_before_write : forall v b d c o e,
   plan_of v b d c o = PErr e -> steps_of (plan_of v b d c o) = [].
 Proof. exact error_before_write. Qed.
@@ -258,7 +262,7 @@ Print Assumptions C11_exact_guard_strictly_weaker.
 Theorem C11_exact_guard_rejects_findings :
   guard_C11_exact (disk_of cycle_store) cycle_cache cycle_op = false /\
   guard_C11_exact (disk_of []) [] (OOverwrite dup_witness) = false.
-Proof. split; [exact exact_guard_rejects_findings|exact exact_guard_rejects_dup_witness]. Qed.
+Proof. exact exact_guard_rejects_both. Qed.
 Print Assumptions C11_exact_guard_rejects_findings.
 
 (* histories of completed / raised / killed operations under the exact guard; the hypothesis of C11_history_safe_tx
@@ -324,9 +328,7 @@ Theorem C11_repaired_children_before_parents : forall (s : store) (c : cache) n 
   (forall i, has i c = true -> lookup i s <> None) ->
   collect2 (nid_of n) (keys s) c n ([], []) = Ok st ->
   NoDup (keys (fst st)) /\ ordered (keys s) (proj (fst st)).
-Proof.
-  intros s c n st Hc H. destruct (collect2_top s c n st Hc H) as (ND & OR & _). split; assumption.
-Qed.
+Proof. exact repaired_children_before_parents. Qed.
 Print Assumptions C11_repaired_children_before_parents.
 
 (* what the repair rejects (before any write): the witness of C11_dup_id_refuted and an object nested inside its own
@@ -364,3 +366,74 @@ Theorem C11_repaired_history_nonvacuous :
             (4 <= length (view (fst (run_events2 current b (disk_of share_store) share_cache share_history))))%nat.
 Proof. exact history2_nonvacuous. Qed.
 Print Assumptions C11_repaired_history_nonvacuous.
+
+(* ROUND 5 (audit): CLAUSE (b) IN THE WORDS OF THE SPECIFICATION.  The theorems above say "old content or the content of
+   the completed operation"; check_spec (Corr.v) accepts "old content, or the document of a node of the stored template
+   that carries this identifier (deletion: the deleted identifier, gone)" = new_content_P.  For the code as it is now,
+   every template, every cache, both kinds of interruption at every position, no guard: *)
+Theorem C11_repaired_old_or_new_content : forall v b d c o ck k i,
+  safe v b = true -> wf d c -> all_load (view d) -> del_in_scope d o ->
+  let d' := after_crash ck b (steps_of (plan_of2 v b d c o)) k d in
+  lookup i (view d') = lookup i (view d) \/ new_content_P o i (lookup i (view d')).
+Proof. exact old_or_new_content. Qed.
+Print Assumptions C11_repaired_old_or_new_content.
+
+(* whatever the repaired encoder buffers is the document of a node of the template (any template, any start state) *)
+Theorem C11_repaired_buffer_from_template : forall root ks c n st,
+  collect2 root ks c n ([], []) = Ok st ->
+  forall j tg x, In (j, (tg, x)) (fst st) -> exists m, In m (nodes n) /\ nid_of m = j /\ doc_of m = x.
+Proof. exact buffer_from_template. Qed.
+Print Assumptions C11_repaired_buffer_from_template.
+
+(* non-vacuity: the root of the shared-sub-template example holds the NEW document after the completed overwrite, the OLD
+   one when the first primitive fails, and the two differ *)
+Theorem C11_old_or_new_content_nonvacuous :
+  forall b, lookup 0 (view (after_crash Raised b (steps_of (plan_of2 current b (disk_of share_store) share_cache (OOverwrite share_tmpl))) 99
+                                        (disk_of share_store))) = Some (doc_of share_tmpl) /\
+            lookup 0 (view (after_crash Raised b (steps_of (plan_of2 current b (disk_of share_store) share_cache (OOverwrite share_tmpl))) 0
+                                        (disk_of share_store))) = lookup 0 share_store /\
+            lookup 0 share_store <> Some (doc_of share_tmpl).
+Proof. exact old_or_new_content_nonvacuous. Qed.
+Print Assumptions C11_old_or_new_content_nonvacuous.
+
+(* the known finding overwrite-creates-cycle, stated for the code AS IT IS NOW (`plan_of2`; C11_cycle_refuted above is
+   about the model before the round-4 repair): a storage in which everything loads, an overwrite that is performed on
+   every backend, outside guard2_cycle and outside guard2_exact, after whose completion a listed identifier does not load *)
+Theorem C11_repaired_cycle_refuted :
+  exists d c o, wf d c /\ all_load (view d) /\ del_in_scope d o /\
+     guard2_cycle d c o = false /\ guard2_exact d c o = false /\
+     (forall b, exists s c', plan_of2 current b d c o = PSteps s c' /\ (1 <= length s)%nat) /\
+     exists i, lookup i (view (run (steps_of (plan_of2 current BDict d c o)) d)) <> None /\
+               ~ loads (view (run (steps_of (plan_of2 current BDict d c o)) d)) i.
+Proof. exact cycle_refuted2. Qed.
+Print Assumptions C11_repaired_cycle_refuted.
+
+(* the hypotheses C11_hypotheses_satisfiable does not list (audit): everything loads in the example storage; the example
+   passes the buffer guard, the exact guard and the exact guard of the repaired code *)
+Theorem C11_hypotheses_satisfiable_loads :
+  all_load (view (disk_of ex_store)) /\
+  guard_C11_tx (disk_of ex_store) ex_cache (OOverwrite ex_tmpl) = true /\
+  guard_C11_exact (disk_of ex_store) ex_cache (OOverwrite ex_tmpl) = true /\
+  guard2_exact (disk_of ex_store) ex_cache (OOverwrite ex_tmpl) = true.
+Proof. exact hypotheses_satisfiable_loads. Qed.
+Print Assumptions C11_hypotheses_satisfiable_loads.
+
+(* ROUND 5: "an un-serializable nested object" AS A THEOREM ABOUT TEMPLATES (C11_error_before_write alone is definitional).
+   For the code as it is now, every storage, cache, backend: a template all of whose named nodes are new (identifier
+   neither cached nor stored - a cached child is written as a reference, its sub-tree is not looked at) and whose object
+   identities are coherent (the same identifier + identity = the same Python object), with an un-serializable object
+   ANYWHERE in it, is rejected by store and by overwrite, and the disk is the same disk after every interruption. *)
+Theorem C11_unserializable_rejected : forall v b d c T,
+  has_bad T = true -> coherentb T = true -> all_newb (keys (view d)) c T = true ->
+  (exists e, plan_of2 v b d c (OOverwrite T) = PErr e) /\ (exists e, plan_of2 v b d c (OStore T) = PErr e) /\
+  forall ck k, after_crash ck b (steps_of (plan_of2 v b d c (OOverwrite T))) k d = d /\
+               after_crash ck b (steps_of (plan_of2 v b d c (OStore T))) k d = d.
+Proof. exact unserializable_rejected. Qed.
+Print Assumptions C11_unserializable_rejected.
+
+Theorem C11_unserializable_nonvacuous :
+  has_bad bad_tmpl = true /\ coherentb bad_tmpl = true /\ all_newb (keys (view (disk_of ex_store))) ex_cache bad_tmpl = true /\
+  (4 <= length (nodes bad_tmpl))%nat /\
+  forall b, plan_of2 current b (disk_of ex_store) ex_cache (OOverwrite bad_tmpl) = PErr EUnser.
+Proof. exact unserializable_nonvacuous. Qed.
+Print Assumptions C11_unserializable_nonvacuous.
